@@ -71,7 +71,7 @@ REGISTRY = {
                 tie=['tieA_domain_regex', 'tieA_runtime_agrees'], lanes=['validate', 'ctor', 'ctor_args', 'cpython_regex'], oracles=['c13']),
     'C14': dict(mods=['C14'], thms=['C14_catalogue_eq_spec', 'C14_count', 'C14_index', 'C14_keys_distinct', 'C14_sync_iff_replies', 'C14_replies_same_class', 'C14_python_names', 'C14_properties_eq_spec', 'C14_construct_defaults'],
                 tie=['tieA_runtime_agrees'], lanes=['ctor'], oracles=['c14']),
-    'C15': dict(mods=['C15'], thms=['C15_naive_as_utc', 'C15_aware_instant', 'C15_encoding', 'C15_struct_time', 'C15_decode_utc', 'C15_roundtrip_instant'],
+    'C15': dict(mods=['C15', 'C15Wire'], thms=['C15_decode_wire', 'C15_naive_as_utc', 'C15_aware_instant', 'C15_encoding', 'C15_struct_time', 'C15_decode_utc', 'C15_roundtrip_instant'],
                 tie=['tieA_time_calls'], lanes=['enc_prim/enc.prim.timestamp', 'dec_prim/dec.prim.timestamp'], oracles=['c15']),
     'C16': dict(mods=['C16'], thms=['C16_history', 'C16_schedule', 'C16_no_trace'],
                 tie=['tieA_no_shared_mutation', 'tieA_no_hidden_state', 'tieA_toggle'], lanes=['api_seq', 'ctor'], oracles=['c16']),
